@@ -21,6 +21,8 @@ CARRIERS = {
     'int': lambda n: n,
     'float': lambda n: n / 4.0,
     'array': lambda n: np.array([n, 2 * n]),
+    # fractional entries: sums strictly between 0 and 1 occur
+    'farray': lambda n: np.array([n / 2.0, n / 4.0]),
 }
 
 
